@@ -186,6 +186,23 @@ func (r *rewriter) file(f *ast.File) {
 					c.Replace(call(sim("ReadDir"), append([]ast.Expr{r.site(n, "ioutil.ReadDir")}, n.Args...)...))
 					r.counts["ioutil.ReadDir"]++
 				}
+				if r.pkgOf(sel) == "sync/atomic" {
+					// (sampled) scheduling points before and after an atomic
+					// operation: atomic.X(a...) -> simrt.A(simrt.AtomicPre(site), atomic.X(a...))
+					name := sel.Sel.Name
+					switch c.Parent().(type) {
+					case *ast.DeferStmt, *ast.GoStmt:
+						// arguments would be evaluated at the wrong moment: left alone
+						return true
+					}
+					switch {
+					case strings.HasPrefix(name, "Store"):
+						// no result: handled at statement level (ExprStmt below)
+					case strings.HasPrefix(name, "Add"), strings.HasPrefix(name, "Load"), strings.HasPrefix(name, "CompareAndSwap"), strings.HasPrefix(name, "Swap"):
+						c.Replace(call(sim("A"), call(sim("AtomicPre"), r.site(n, "atomic."+name)), n))
+						r.counts["atomic"]++
+					}
+				}
 			}
 			if r.isBuiltin(n.Fun, "close") && len(n.Args) == 1 {
 				c.Replace(call(sim("Close"), r.site(n, "close"), n.Args[0]))
@@ -211,6 +228,15 @@ func (r *rewriter) file(f *ast.File) {
 			c.InsertAfter(&ast.ExprStmt{X: call(sim("ChanPost"), tok)})
 			r.counts["send"]++
 		case *ast.ExprStmt, *ast.AssignStmt:
+			if es, ok := n.(*ast.ExprStmt); ok && c.Index() >= 0 {
+				if ce, ok := es.X.(*ast.CallExpr); ok {
+					if sel, ok := ce.Fun.(*ast.SelectorExpr); ok && r.pkgOf(sel) == "sync/atomic" && strings.HasPrefix(sel.Sel.Name, "Store") {
+						c.InsertBefore(&ast.ExprStmt{X: call(sim("AtomicPre"), r.site(ce, "atomic."+sel.Sel.Name))})
+						c.InsertAfter(&ast.ExprStmt{X: call(sim("AtomicPost"))})
+						r.counts["atomic"]++
+					}
+				}
+			}
 			u := recvOfStmt(n.(ast.Stmt))
 			if u == nil {
 				return true
